@@ -114,8 +114,13 @@ func hash64(s string) uint64 {
 }
 
 // Case records one evaluated case under its canonical key.
+var traceCases = os.Getenv("VERIF_TRACE") != ""
+
 func (r *Run) Case(key string, nontrivial bool) {
 	r.evaluations++
+	if traceCases {
+		fmt.Fprintln(os.Stderr, "CASE:", key)
+	}
 	if r.distinctCap {
 		return
 	}
@@ -291,37 +296,83 @@ func (r *Run) failV(v *Violation) {
 }
 
 // Guard runs f and converts a panic escaping from library frames into a violation of clause
-// "no-panic". It returns true when f returned normally.
+// "no-panic", and an exhausted step budget into a violation of clause "terminates". It returns true when f
+// returned normally. f runs in a goroutine of its own (the caller waits), so that an exhausted budget can end it
+// with runtime.Goexit; under the controlled scheduler of C15 f runs in the calling thread.
 func (r *Run) Guard(x *explore.X, what string, detail map[string]any, f func()) (ok bool) {
-	defer func() {
-		if p := recover(); p != nil {
-			if d, isDiv := p.(explore.Diverged); isDiv {
-				panic(d)
-			}
-			if _, isStep := p.(verifhook.StepBudgetExceeded); isStep {
-				site := "step-budget:" + what
-				d2 := cloneDetail(detail)
-				d2["what"] = what
-				r.failV(&Violation{Property: r.Check.ID, Clause: "terminates", Signature: site, Detail: d2, Vector: x.Choices(), Site: site, Stack: trimStack(string(debug.Stack()))})
+	budgetViolation := func(stack string) {
+		site := "step-budget:" + what + "@" + LoopSite(stack)
+		d2 := cloneDetail(detail)
+		d2["what"] = what
+		r.failV(&Violation{Property: r.Check.ID, Clause: "terminates", Signature: site, Detail: d2, Vector: x.Choices(), Site: site, Stack: trimStack(stack)})
+	}
+	panicViolation := func(p any, stack string) {
+		site := PanicSite(stack)
+		msg := fmt.Sprint(p)
+		d2 := cloneDetail(detail)
+		d2["what"] = what
+		d2["panic"] = msg
+		r.failV(&Violation{Property: r.Check.ID, Clause: "no-panic", Signature: "panic@" + site + ":" + panicClass(msg), Detail: d2, Vector: x.Choices(), Site: site, Stack: trimStack(stack)})
+	}
+	if verifhook.Sched != nil {
+		defer func() {
+			if p := recover(); p != nil {
+				if d, isDiv := p.(explore.Diverged); isDiv {
+					panic(d)
+				}
+				if _, isStep := p.(verifhook.StepBudgetExceeded); isStep {
+					budgetViolation(shortStack())
+					ok = false
+					return
+				}
+				panicViolation(p, shortStack())
 				ok = false
-				return
 			}
-			stack := string(debug.Stack())
-			site := PanicSite(stack)
-			msg := fmt.Sprint(p)
-			d2 := cloneDetail(detail)
-			d2["what"] = what
-			d2["panic"] = msg
-			r.failV(&Violation{Property: r.Check.ID, Clause: "no-panic", Signature: "panic@" + site + ":" + panicClass(msg), Detail: d2, Vector: x.Choices(), Site: site, Stack: trimStack(stack)})
-			ok = false
-		}
+		}()
+		f()
+		return true
+	}
+	var panicked, finished bool
+	var pv any
+	var stack string
+	done := make(chan struct{})
+	verifhook.ExitOnBudget, verifhook.Exceeded = true, false
+	go func() {
+		defer close(done)
+		defer func() {
+			if p := recover(); p != nil {
+				panicked, pv, stack = true, p, shortStack()
+			}
+		}()
+		f()
+		finished = true
 	}()
-	f()
+	<-done
+	verifhook.ExitOnBudget = false
+	switch {
+	case verifhook.Exceeded:
+		verifhook.Exceeded = false
+		budgetViolation(framesText(verifhook.ExceededPCs))
+		return false
+	case panicked:
+		if d, isDiv := pv.(explore.Diverged); isDiv {
+			panic(d)
+		}
+		if _, isStep := pv.(verifhook.StepBudgetExceeded); isStep {
+			budgetViolation(stack)
+			return false
+		}
+		panicViolation(pv, stack)
+		return false
+	case !finished:
+		panicViolation("the execution ended its goroutine (runtime.Goexit)", "")
+		return false
+	}
 	return true
 }
 
 // StepBudget is the default number of instrumented steps one execution may take.
-const StepBudget = 2_000_000
+const StepBudget = 1_000_000
 
 // Exec resets the instrumentation seams (step counter, map order policy) for one execution.
 func (r *Run) Exec(order int) {
@@ -376,6 +427,53 @@ func PanicSite(stack string) string {
 		}
 	}
 	return "outside-library"
+}
+
+// shortStack renders the innermost 400 frames of the current goroutine in the layout of debug.Stack. (debug.Stack
+// itself walks and formats the whole stack, which takes minutes when a runaway recursion is a million frames deep.)
+func shortStack() string {
+	pcs := make([]uintptr, 400)
+	n := runtime.Callers(2, pcs)
+	return framesText(pcs[:n])
+}
+
+func framesText(pcs []uintptr) string {
+	frames := runtime.CallersFrames(pcs)
+	var b strings.Builder
+	b.WriteString("goroutine (innermost 400 frames):\n")
+	for {
+		f, more := frames.Next()
+		fmt.Fprintf(&b, "%s(...)\n\t%s:%d\n", f.Function, f.File, f.Line)
+		if !more {
+			break
+		}
+	}
+	return b.String()
+}
+
+// LoopSite names the library function an unbounded recursion goes through: the library function that occurs most often
+// on the stack, at least three times, alphabetically first among equals (the innermost library function if there is none).
+func LoopSite(stack string) string {
+	count := map[string]int{}
+	for _, ln := range strings.Split(stack, "\n") {
+		if strings.HasPrefix(ln, "github.com/getkin/kin-openapi/") && !strings.HasPrefix(ln, "github.com/getkin/kin-openapi/verifhook") {
+			fn := strings.TrimPrefix(ln, "github.com/getkin/kin-openapi/")
+			if i := strings.LastIndex(fn, "("); i > 0 {
+				fn = fn[:i]
+			}
+			count[fn]++
+		}
+	}
+	best := ""
+	for fn, n := range count {
+		if n >= 3 && (best == "" || n > count[best] || (n == count[best] && fn < best)) {
+			best = fn
+		}
+	}
+	if best == "" {
+		return PanicSite(stack)
+	}
+	return best
 }
 
 func trimStack(s string) string {
@@ -479,7 +577,6 @@ func runDir() string {
 
 // Worker explores one shard and writes its result file.
 func Worker(c *Check, tier string, seed int64, shard, nshards int, poison [][]int, outPath string) {
-	debug.SetMaxStack(1 << 30)
 	if c.Serial {
 		// a serial check may run its own goroutines
 	} else {
@@ -626,6 +723,9 @@ func loadKnown() []KnownFinding {
 
 // Main is the entry point of cmd/check.
 func Main(args []string) int {
+	// in every mode (coordinator, worker, replay) the step budget must run out before the stack does:
+	// 1e6 steps of the deepest recursion seen (json.Marshal through MarshalJSON methods, ~1.5 KB of stack per step)
+	debug.SetMaxStack(4 << 30)
 	if len(args) < 1 {
 		fmt.Fprintln(os.Stderr, "usage: check <ID> quick|thorough | check <ID> --replay <file> | check list")
 		return 2
@@ -1019,19 +1119,19 @@ func coordinate(c *Check, tier string, seed int64) int {
 		"abstained":                     abstained,
 		"executions":                    st.Owned,
 		"executions_incl_foreign_shard_generation": st.Executions,
-		"max_choice_depth":              st.MaxDepth,
-		"deviation_bound":               devBound(c, tier),
-		"max_deviations_taken":          st.MaxDevs,
-		"exhaustive":                    complete,
-		"cap_hit":                       !complete,
-		"cap_seconds":                   capSeconds(c, tier),
-		"distinct_outcomes":             outcomes,
-		"counters":                      counters,
-		"maxima":                        maxima,
-		"known_findings_hit":            knownHit,
-		"workers":                       nw,
-		"nondeterminism":                nondet,
-		"explanation":                   "stateless exhaustive exploration of the real implementation over the choice tree of the generator; every execution is judged by the oracle of this property",
+		"max_choice_depth":                         st.MaxDepth,
+		"deviation_bound":                          devBound(c, tier),
+		"max_deviations_taken":                     st.MaxDevs,
+		"exhaustive":                               complete,
+		"cap_hit":                                  !complete,
+		"cap_seconds":                              capSeconds(c, tier),
+		"distinct_outcomes":                        outcomes,
+		"counters":                                 counters,
+		"maxima":                                   maxima,
+		"known_findings_hit":                       knownHit,
+		"workers":                                  nw,
+		"nondeterminism":                           nondet,
+		"explanation":                              "stateless exhaustive exploration of the real implementation over the choice tree of the generator; every execution is judged by the oracle of this property",
 	}
 	if c.Bounds != nil {
 		cov["bounds"] = c.Bounds(tier)
